@@ -18,17 +18,17 @@ let rec int_of_pos (p : positive) : int =
 
 let int_of_n (x : n) : int = match x with N0 -> 0 | Npos p -> int_of_pos p
 
-let bytes_of_string (s : string) : n list =
+let bytes_of_string (s : Stdlib.String.t) : n list =
   let r = ref [] in
-  for i = String.length s - 1 downto 0 do
-    r := n_of_int (Char.code s.[i]) :: !r
+  for i = Stdlib.String.length s - 1 downto 0 do
+    r := n_of_int (Stdlib.Char.code s.[i]) :: !r
   done;
   !r
 
-let string_of_bytes (l : n list) : string =
-  let b = Buffer.create 256 in
-  List.iter (fun x -> Buffer.add_char b (Char.chr (int_of_n x land 255))) l;
-  Buffer.contents b
+let string_of_bytes (l : n list) : Stdlib.String.t =
+  let b = Stdlib.Buffer.create 256 in
+  Stdlib.List.iter (fun x -> Stdlib.Buffer.add_char b (Stdlib.Char.chr (int_of_n x land 255))) l;
+  Stdlib.Buffer.contents b
 
 let () =
   let family = if Array.length Sys.argv > 1 then Sys.argv.(1) else "codec" in
@@ -36,6 +36,7 @@ let () =
     | "session" -> run_session_line
     | "frame" -> run_frame_line
     | "timer" -> run_timer_line
+    | "gen" -> run_gen_line
     | _ -> run_codec in
   try
     while true do
